@@ -20,6 +20,7 @@ predicate("QWF", ["q: Ref[PlainQuantity]"], """
     allocated(q) and wf(q._units) and names_ok(q._units) and exact_class(q._units, 'UnitsContainer')
     and dims_ok(q._units, q._REGISTRY)
     and RegAll(q._REGISTRY) and FacOf(q._units, 1) > 0
+    and AllMult(q._REGISTRY, q._units) and not truthy(q._REGISTRY._active_ctx)
     and implies(not is_none(q._dimensionality),
                 wf(some(q._dimensionality)) and forall[Str](lambda b: view(some(q._dimensionality))[b]
                                                              == (0 if b == '[]' else DimOf(b, q._units))))
@@ -45,7 +46,8 @@ contract(f"{Q}._convert_magnitude_not_inplace",
          params={"self": "Ref[PlainQuantity]", "other": "Ref[UnitsContainer]", "contexts": "Seq[Str]", "ctx_kwargs": "None"},
          returns="Num",
          requires={"q": "QWF(self)", "other": "wf(other) and names_ok(other) and exact_class(other, 'UnitsContainer') "
-                                              "and dims_ok(other, self._REGISTRY)",
+                                              "and dims_ok(other, self._REGISTRY) and AllMult(self._REGISTRY, other) "
+                                              "and FacOf(other, 1) > 0",
                    "noctx": "len(contexts) == 0"},
          raises={"DimensionalityError": "exists[Str](lambda b: b != '[]' and DimOf(b, self._units) != DimOf(b, other))"},
          ensures={"value": "result == self._magnitude * FacDiff(keys(self._units._d), vals(view(self._units)), "
@@ -53,10 +55,11 @@ contract(f"{Q}._convert_magnitude_not_inplace",
                   "q": "QWF(self)", "reg": "RegAll(self._REGISTRY)", "hashes": "HashesKept()"},
          modifies=["contents(self._REGISTRY._cache.dimensionality)", "contents(self._REGISTRY._cache.root_units)",
                    "contents(self._REGISTRY._cache.conversion_factor)", "allof(UnitsContainer._hash)"],
-         trusted=True,
-         note="multiplicative units, no context: registry.convert -> NonMultiplicative/Context _convert defer to "
-              "GenericPlainRegistry._convert, which is verified (c01_registry)",
-         props=["C05", "C03", "C15"])
+         allow_exc=("UndefinedUnitError", "OffsetUnitCalculusError", "KeyError", "TypeError", "ArithmeticError"),
+         theories=("lin", "fac"),
+         note="multiplicative units, no context: registry.convert -> Context / NonMultiplicative / plain _convert, all verified "
+              "(c02_chain, c01_registry)",
+         props=["C05", "C03", "C15", "C02"])
 
 contract(f"{Q}.to_root_units",
          params={"self": "Ref[PlainQuantity]"}, returns="Ref[PlainQuantity]",
@@ -158,7 +161,7 @@ contract(f"{Q}.__eq__",
                    "multiplicative": "q_mult(self) and q_mult(other)"},
          ensures={"equal_iff_same_dimension_and_value": "result == (SameDim(self, other) and Phys(self) == Phys(other))",
                   "hashes": "HashesKept()"},
-         allow_exc=("UndefinedUnitError", "OffsetUnitCalculusError"),
+         allow_exc=("UndefinedUnitError", "OffsetUnitCalculusError", "KeyError", "TypeError", "ArithmeticError"),
          modifies=["self._dimensionality", "other._dimensionality",
                    "contents(self._REGISTRY._cache.dimensionality)", "contents(self._REGISTRY._cache.root_units)",
                    "contents(self._REGISTRY._cache.conversion_factor)", "allof(UnitsContainer._hash)"],
